@@ -1,8 +1,10 @@
 package props
 
 import (
+	"fmt"
 	"go/token"
 	"go/types"
+	"strings"
 
 	"dblint/internal/core"
 
@@ -12,7 +14,7 @@ import (
 func init() {
 	register(&Spec{ID: "C01", Title: "Outgoing messages are well-formed TDS packet sequences", Run: runC01,
 		Meta: core.Meta{
-			Explanation: "Structural necessary conditions of well-formed packetisation; the numeric quantification (every length x packet size x call split) is not decided. R01.1 (E-OWN): the transport Conn.conn is referenced in exactly four roles — initialised in NewConn, closed in Conn.Close, reader argument of Packet.ReadFrom in Conn.ReadFrom, writer argument of Packet.WriteTo in sendPacket; any other use bypasses packetisation. R01.2: in sendPacket the write is dominated by Header.MsgType := CurrentHeaderType; the end-of-message flag is set exactly on the edge where len(packet.Data) differs from the LIVE Conn.PacketBodySize() (a call, not a cached value) by or-ing TDS_BUFSTAT_EOM into Header.Status before the write; the byte count returned by the write is compared with Header.Length. R01.3: NewPacket sets Header.Length = size and Data = make(size-8); the trim in sendPackets stores Header.Length = PacketHeaderSize + k and Data = Data[:k] for the same k (the tx queue's indexData). R01.4: in sendPackets the partial-packet test is `i == indexPacket && indexData < PacketBodySize()` with a strict comparison against the live body size; the early `return nil` lies on its onlyFull edge, the trim on the other; the deferred DiscardUntilCurrentPosition runs on every exit. R01.5: SendRemainingPackets calls sendPackets(ctx, false) under the closed protocol and resets the channel on every exit (C03 R03.4). R01.6: the flush reaches its success return only through at least one sendPacket call (path-insensitive on the loop). R01.7: Packet.WriteTo hands the whole serialised packet (packet.Bytes()) to the transport in exactly one Write call on every path — all channels share the transport without a send lock, so one Write per packet is what keeps packets of different channels from interleaving. R01.8: the tx side (header type, tx queue, lastPkgTx) is restored on every exit of SendRemainingPackets, also when the flush fails. R01.10 = R15.7: the deferred DiscardUntilCurrentPosition drops the packet under the position when indexData has reached (>= or ==, not >) the end of its body, after the queue was shifted — otherwise a message that ends exactly on a packet boundary is sent twice. R01.11 = R12.3 (channel id and packet number stamped, the number advanced by one modulo 256). R01.12 = R15.6 (WriteBytes computes the room left in a packet from that packet's own header length and body, never from the live packet size: a shortcut that compares with packetSize() instead of the body size drops the bytes that overhang). R01.13 (E-OWN): every store to Channel.CurrentHeaderType assigns a TDS_BUF_* constant (never a saved or computed value). R01.14 = R14.12 (after a failed sendPacket no further packet of the message is written and the error is returned). R01.9: sendPackets/sendPacket decide 'full' and 'last' with Conn.PacketBodySize() while the tx queue sizes new packets with its packetSize function; both must be the one negotiated size: (*Conn).PacketSize returns Conn.packetSize itself on every path, PacketBodySize returns that value minus PacketHeaderSize, every value stored into Channel.queueTx is NewPacketQueue(<conn>.PacketSize) (the bound method of the channel's connection, or a function literal that only returns that call), and PacketQueue.packetSize is assigned only by NewPacketQueue from its parameter.",
+			Explanation: "Structural necessary conditions of well-formed packetisation; the numeric quantification (every length x packet size x call split) is not decided. R01.1 (E-OWN): the transport Conn.conn is referenced in exactly four roles — initialised in NewConn, closed in Conn.Close, reader argument of Packet.ReadFrom in Conn.ReadFrom, writer argument of Packet.WriteTo in sendPacket; any other use bypasses packetisation. R01.2: in sendPacket the write is dominated by Header.MsgType := CurrentHeaderType; the end-of-message flag is set exactly on the edge where len(packet.Data) differs from the LIVE Conn.PacketBodySize() (a call, not a cached value) by or-ing TDS_BUFSTAT_EOM into Header.Status before the write; the byte count returned by the write is compared with Header.Length. R01.3: NewPacket sets Header.Length = size and Data = make(size-8); the trim in sendPackets stores Header.Length = PacketHeaderSize + k and Data = Data[:k] for the same k (the tx queue's indexData). R01.4: in sendPackets the partial-packet test is `i == indexPacket && indexData < PacketBodySize()` with a strict comparison against the live body size; the early `return nil` lies on its onlyFull edge, the trim on the other; the deferred DiscardUntilCurrentPosition runs on every exit. R01.5: SendRemainingPackets calls sendPackets(ctx, false) under the closed protocol and resets the channel on every exit (C03 R03.4). R01.6: the flush reaches its success return only through at least one sendPacket call (path-insensitive on the loop). R01.7: Packet.WriteTo hands the whole serialised packet (packet.Bytes()) to the transport in exactly one Write call on every path — all channels share the transport without a send lock, so one Write per packet is what keeps packets of different channels from interleaving. R01.8: the tx side (header type, tx queue, lastPkgTx) is restored on every exit of SendRemainingPackets, also when the flush fails. R01.10 = R15.7: the deferred DiscardUntilCurrentPosition drops the packet under the position when indexData has reached (>= or ==, not >) the end of its body, after the queue was shifted — otherwise a message that ends exactly on a packet boundary is sent twice. R01.11 = R12.3 (channel id and packet number stamped, the number advanced by one modulo 256). R01.12 = R15.6 (WriteBytes computes the room left in a packet from that packet's own header length and body, never from the live packet size: a shortcut that compares with packetSize() instead of the body size drops the bytes that overhang). R01.13 (E-OWN): every store to Channel.CurrentHeaderType assigns a TDS_BUF_* constant (never a saved or computed value). R01.14 = R14.12 (after a failed sendPacket no further packet of the message is written and the error is returned). R01.15: PacketHeader.Read and PacketHeader.Write place/take MsgType, Status, Length, Channel, PacketNr, Window at offsets 0, 1, 2, 4, 6, 7 (compared with the specification, not with each other). R01.16 (E-OWN): no function statically reachable from (*Conn).ReadFrom stores CurrentHeaderType or lastPkgTx or calls a method of queueTx. R01.9: sendPackets/sendPacket decide 'full' and 'last' with Conn.PacketBodySize() while the tx queue sizes new packets with its packetSize function; both must be the one negotiated size: (*Conn).PacketSize returns Conn.packetSize itself on every path, PacketBodySize returns that value minus PacketHeaderSize, every value stored into Channel.queueTx is NewPacketQueue(<conn>.PacketSize) (the bound method of the channel's connection, or a function literal that only returns that call), and PacketQueue.packetSize is assigned only by NewPacketQueue from its parameter.",
 			NotDecided:  "Byte-exact concatenation of bodies, 'every packet but the last is full' as arithmetic and packet-size changes between messages are not decided.",
 			Assumptions: []string{"Packet.WriteTo serialises header then data (C15 / packet.go)", "channel id and packet number stamping is C12's R12.3"},
 		}})
@@ -40,6 +42,10 @@ func runC01(r *core.Run) {
 	defer c01HeaderTypeConst(r)
 	r.Rule("R01.14", "a failed packet write ends the message: no later packet of it is written (R14.12)", 1, false)
 	defer c14SendFailureReturns(r, "R01.14")
+	r.Rule("R01.15", "the packet header is serialised and parsed at the offsets of the TDS 5.0 specification", 2, false)
+	defer c01HeaderLayout(r)
+	r.Rule("R01.16", "the transmit side of a channel is written by the sending goroutine only", 1, false)
+	defer c01TxOwnership(r)
 
 	fConn := p.Field("tds", "Conn", "conn")
 	roles := map[*ssa.Function]string{
@@ -117,7 +123,7 @@ func runC01(r *core.Run) {
 
 	c01SendPacket(r)
 	c01Coupling(r)
-	c01SendPackets(r)
+	c01SendPackets(r, "R01.4")
 	c01SingleWrite(r, "R01.7")
 	c03Reset(r, "R01.8")
 }
@@ -368,7 +374,7 @@ func c01Coupling(r *core.Run) {
 	r.Check(okTrim, "R01.3", "sendPackets: trim sets Length = PacketHeaderSize + indexData and Data = Data[:indexData]", fn.Pos(), "same count, same block", whyTrim)
 }
 
-func c01SendPackets(r *core.Run) {
+func c01SendPackets(r *core.Run, rule string) {
 	p := r.Prog
 	fn := p.Func("tds", "Channel", "sendPackets")
 	sp := p.Func("tds", "Channel", "sendPacket")
@@ -376,7 +382,7 @@ func c01SendPackets(r *core.Run) {
 	fIdxPacket := p.Field("tds", "PacketQueue", "indexPacket")
 	fLength := p.Field("tds", "PacketHeader", "Length")
 	if len(fn.Params) < 3 {
-		r.Unknown("R01.4", "sendPackets", fn.Pos(), "unexpected signature")
+		r.Unknown(rule, "sendPackets", fn.Pos(), "unexpected signature")
 		return
 	}
 	onlyFull := fn.Params[2]
@@ -406,7 +412,7 @@ func c01SendPackets(r *core.Run) {
 		}
 		partial = iff
 	}
-	r.Check(partial != nil, "R01.4", "sendPackets: partial test is indexData < PacketBodySize()", fn.Pos(), "strict comparison against the live body size", why)
+	r.Check(partial != nil, rule, "sendPackets: partial test is indexData < PacketBodySize()", fn.Pos(), "strict comparison against the live body size", why)
 	if partial != nil {
 		// under i == indexPacket
 		under := false
@@ -420,7 +426,7 @@ func c01SendPackets(r *core.Run) {
 				}
 			}
 		}
-		r.Check(under, "R01.4", "sendPackets: partial test only for the packet at the write position", partial.Pos(), "i == queueTx.indexPacket", "the partial-packet test is applied to packets other than the one being filled")
+		r.Check(under, rule, "sendPackets: partial test only for the packet at the write position", partial.Pos(), "i == queueTx.indexPacket", "the partial-packet test is applied to packets other than the one being filled")
 		// early return only under onlyFull; trim only under !onlyFull
 		okEdges, whyEdges := true, ""
 		part := partial.Block().Succs[0]
@@ -452,7 +458,7 @@ func c01SendPackets(r *core.Run) {
 				}
 			}
 		}
-		r.Check(okEdges, "R01.4", "sendPackets: early return only for onlyFull, trim only for !onlyFull", partial.Pos(), "edges as required", whyEdges)
+		r.Check(okEdges, rule, "sendPackets: early return only for onlyFull, trim only for !onlyFull", partial.Pos(), "edges as required", whyEdges)
 	}
 	// deferred discard
 	disc := p.Func("tds", "PacketQueue", "DiscardUntilCurrentPosition")
@@ -462,8 +468,11 @@ func c01SendPackets(r *core.Run) {
 			okDisc = true
 		}
 	}
-	r.Check(okDisc, "R01.4", "sendPackets: sent packets are discarded on every exit", fn.Pos(), "defer queueTx.DiscardUntilCurrentPosition()", "packets that were sent stay in the tx queue on some exit: they are sent again with the next message")
+	r.Check(okDisc, rule, "sendPackets: sent packets are discarded on every exit", fn.Pos(), "defer queueTx.DiscardUntilCurrentPosition()", "packets that were sent stay in the tx queue on some exit: they are sent again with the next message")
 
+	if rule != "R01.4" {
+		return // re-run under another property: only the sendPackets clauses
+	}
 	// R01.5
 	srp := p.Func("tds", "Channel", "SendRemainingPackets")
 	okF := false
@@ -711,4 +720,192 @@ func c01HeaderTypeConst(r *core.Run) {
 	if n == 0 {
 		r.Unknown("R01.13", "CurrentHeaderType assignments", token.NoPos, "no assignment found")
 	}
+}
+
+// c01HeaderLayout: R01.15. The eight header bytes are, per TDS 5.0: type(0) status(1) length(2..3, big endian)
+// channel(4..5, big endian) packet number(6) window(7). PacketHeader.Read (serialise) and PacketHeader.Write (parse)
+// put/take every field at that offset. A table of offsets shared by both directions keeps the library's own round trip
+// intact when two one-byte fields change places, so the offsets are compared with the specification, not with each
+// other.
+func c01HeaderLayout(r *core.Run) {
+	p := r.Prog
+	spec := map[int64]string{0: "MsgType", 1: "Status", 2: "Length", 4: "Channel", 6: "PacketNr", 7: "Window"}
+	fields := map[*types.Var]string{}
+	for _, n := range spec {
+		fields[p.Field("tds", "PacketHeader", n)] = n
+	}
+	var fieldOf func(v ssa.Value, d int) string
+	fieldOf = func(v ssa.Value, d int) string {
+		if d > 4 || v == nil {
+			return ""
+		}
+		if f, _ := core.FieldLoad(core.Strip(v)); f != nil {
+			return fields[f]
+		}
+		switch x := v.(type) {
+		case *ssa.Convert:
+			return fieldOf(x.X, d+1)
+		case *ssa.ChangeType:
+			return fieldOf(x.X, d+1)
+		}
+		return ""
+	}
+	check := func(fn *ssa.Function, what string, got map[int64]string) {
+		bad := ""
+		for off, name := range spec {
+			if got[off] != name {
+				have := got[off]
+				if have == "" {
+					have = "nothing recognised"
+				}
+				bad = fmt.Sprintf("%s handles %s at header offset %d where the TDS 5.0 packet header has %s: the peer reads the packet number / window / channel of every packet from the wrong byte", what, have, off, name)
+			}
+		}
+		r.Check(bad == "", "R01.15", "PacketHeader."+what+": fields at the offsets of the specification", fn.Pos(), "type 0, status 1, length 2, channel 4, packet number 6, window 7", bad)
+	}
+	// serialise: stores into bs[k], PutUint16(bs[k:k+2], field)
+	rd := p.Func("tds", "PacketHeader", "Read")
+	got := map[int64]string{}
+	for _, b := range rd.Blocks {
+		for _, in := range b.Instrs {
+			switch x := in.(type) {
+			case *ssa.Store:
+				if ia, ok := x.Addr.(*ssa.IndexAddr); ok {
+					if k, isC := core.ConstInt64(ia.Index); isC {
+						if n := fieldOf(x.Val, 0); n != "" {
+							got[k] = n
+						}
+					}
+				}
+			case *ssa.Call:
+				if args := endianArgs(&x.Call, "PutUint16"); len(args) == 2 {
+					if sl, ok := args[0].(*ssa.Slice); ok && sl.Low != nil {
+						if k, isC := core.ConstInt64(sl.Low); isC {
+							if n := fieldOf(args[1], 0); n != "" {
+								got[k] = n
+							}
+						}
+					}
+				}
+			}
+		}
+	}
+	check(rd, "Read", got)
+	// parse: field stores from bs[k] / Uint16(bs[k:k+2])
+	wr := p.Func("tds", "PacketHeader", "Write")
+	got = map[int64]string{}
+	var offOf func(v ssa.Value, d int) (int64, bool)
+	offOf = func(v ssa.Value, d int) (int64, bool) {
+		if d > 5 || v == nil {
+			return 0, false
+		}
+		switch x := v.(type) {
+		case *ssa.Convert:
+			return offOf(x.X, d+1)
+		case *ssa.ChangeType:
+			return offOf(x.X, d+1)
+		case *ssa.UnOp:
+			if ia, ok := x.X.(*ssa.IndexAddr); ok {
+				return core.ConstInt64(ia.Index)
+			}
+		case *ssa.Call:
+			if args := endianArgs(&x.Call, "Uint16"); len(args) == 1 {
+				if sl, ok := args[0].(*ssa.Slice); ok && sl.Low != nil {
+					return core.ConstInt64(sl.Low)
+				}
+			}
+		case *ssa.Phi:
+			for _, e := range x.Edges {
+				if k, ok := offOf(e, d+1); ok {
+					return k, true
+				}
+			}
+		}
+		return 0, false
+	}
+	for _, b := range wr.Blocks {
+		for _, in := range b.Instrs {
+			st, ok := in.(*ssa.Store)
+			if !ok {
+				continue
+			}
+			fa, ok := st.Addr.(*ssa.FieldAddr)
+			if !ok || fields[core.FieldOfAddr(fa)] == "" {
+				continue
+			}
+			if k, ok := offOf(st.Val, 0); ok {
+				got[k] = fields[core.FieldOfAddr(fa)]
+			}
+		}
+	}
+	check(wr, "Write", got)
+}
+
+// endianArgs returns the non-receiver arguments of a call of encoding/binary's big-endian method name (through the
+// ByteOrder interface or on binary.BigEndian itself), nil for anything else (little endian included).
+func endianArgs(c *ssa.CallCommon, name string) []ssa.Value {
+	if c.IsInvoke() {
+		if c.Method.Name() == name && c.Method.Pkg() != nil && c.Method.Pkg().Path() == "encoding/binary" {
+			if u, ok := core.Strip(c.Value).(*ssa.MakeInterface); ok && !strings.Contains(u.X.Type().String(), "bigEndian") {
+				return nil
+			}
+			return c.Args
+		}
+		return nil
+	}
+	f := c.StaticCallee()
+	if f == nil || f.Name() != name || f.Pkg == nil || f.Pkg.Pkg.Path() != "encoding/binary" || f.Signature.Recv() == nil {
+		return nil
+	}
+	if !strings.Contains(f.Signature.Recv().Type().String(), "bigEndian") {
+		return nil
+	}
+	return c.Args[1:]
+}
+
+// c01TxOwnership: R01.16. The transmit side of a channel (queueTx, CurrentHeaderType, lastPkgTx) belongs to the
+// goroutine that sends on the channel. Nothing on the reader goroutine's path (functions statically reachable from
+// (*Conn).ReadFrom) writes it — a "return to idle" at the end of a response runs concurrently with the caller that
+// has already started its next message and throws queued bytes away or resets the message type.
+func c01TxOwnership(r *core.Run) {
+	p := r.Prog
+	tx := map[*types.Var]string{
+		p.Field("tds", "Channel", "queueTx"):           "queueTx",
+		p.Field("tds", "Channel", "CurrentHeaderType"): "CurrentHeaderType",
+		p.Field("tds", "Channel", "lastPkgTx"):         "lastPkgTx",
+	}
+	reader := readerPathFuncs(p)
+	n := 0
+	for fn := range reader {
+		if p.FuncInOverlay(fn) {
+			continue
+		}
+		for _, b := range fn.Blocks {
+			for _, in := range b.Instrs {
+				fa, ok := in.(*ssa.FieldAddr)
+				if !ok || tx[core.FieldOfAddr(fa)] == "" {
+					continue
+				}
+				n++
+				name := tx[core.FieldOfAddr(fa)]
+				for _, ref := range *fa.Referrers() {
+					written := false
+					if st, isSt := ref.(*ssa.Store); isSt && st.Addr == ssa.Value(fa) {
+						written = true
+					}
+					if u, isU := ref.(*ssa.UnOp); isU && name == "queueTx" {
+						for _, r2 := range *u.Referrers() {
+							if _, isCall := r2.(ssa.CallInstruction); isCall {
+								written = true // a method of the tx queue is called
+							}
+						}
+					}
+					if written {
+						r.Bad("R01.16", core.FuncName(fn)+": reader goroutine touches Channel."+name, fa.Pos(), core.FuncName(fn)+" runs on the reader goroutine and modifies the transmit side (Channel."+name+"): the sending goroutine may already be queueing its next message, whose bytes or message type are then lost")
+					}
+				}
+			}
+		}
+	}
+	r.Check(len(reader) >= 3, "R01.16", "the reader goroutine does not write the transmit side of a channel", token.NoPos, fmt.Sprintf("%d functions on the reader path, %d references to tx state, none writing", len(reader), n), "reader path not found")
 }
